@@ -22,7 +22,7 @@ ASSUMPTIONS = [
     "documents in the orbit have no name collisions (the statement excludes them), except where a representative document exercises them on purpose: "
     "those are compared only for renderings, not for reorderings",
 ]
-BOUND = {"quick": "22 documents x 3 renderings; 65 field-order orbits; G(2,1) all kinds + G(3,1|4 kinds, prefix names) + G(2,2|4 kinds) x all orders; path / method / response / schema / property reorderings of 20 documents",
+BOUND = {"quick": "20 documents x 4 renderings (block YAML, flow YAML, YAML with unquoted integer keys, tab-indented JSON in a file named .yaml); 202 field-order orbits; G(2,1) all kinds + G(3,1|4 kinds, prefix names) + G(2,2|4 kinds) x all orders; path / method / response / media-type / schema / property reorderings of 18 documents",
          "thorough": "same + G(3,1) 9 kinds + G(2,2) 9 kinds at IR level, G(2,1) at code level"}
 
 RENDERINGS = ["yaml", "yaml-flow", "yaml-intkeys", "json-tabs-yaml-name"]   # the last: JSON indented with tabs in a file called *.yaml
